@@ -57,13 +57,13 @@ Eval(q) ==
 
 \* ---- the builder machine -------------------------------------------------------------------------------------------
 Size(q) == Prod(SemShape(q))
-LeafKinds == {"aff", "cadd", "cadd0", "perm", "flip", "ident", "scan"}
+LeafKinds == {"aff", "cadd", "cadd0", "perm", "flip", "ident", "scan", "tril", "triu"}
 MkLeaf(kind, id, s) ==
   CASE kind = "cadd" -> [k |-> "cadd", id |-> id, shape |-> s, cs |-> <<2>>]
     [] kind = "cadd0" -> [k |-> "cadd", id |-> id, shape |-> s, cs |-> <<>>]        \* a scalar condition
     [] kind = "scan" -> [k |-> "scan", ids |-> <<id, id + 1>>, shape |-> s]
     [] OTHER -> [k |-> kind, id |-> id, shape |-> s]
-Init == /\ \E kind \in LeafKinds, s \in Shapes : p = MkLeaf(kind, 1, s)
+Init == /\ \E kind \in LeafKinds, s \in Shapes : (kind \in {"tril", "triu"} => Len(s) = 1) /\ p = MkLeaf(kind, 1, s)
         /\ depth = 0 /\ res = Eval(p)
 
 CanWrap == depth < MaxDepth /\ res.valid
@@ -71,6 +71,7 @@ FreshId == 2 + 3 * depth
 Wrap(q) == Size(q) <= MaxSize /\ p' = q /\ depth' = depth + 1 /\ res' = Eval(q)
 Ranks(s) == Len(s)
 OtherLeaf(s) == {MkLeaf("aff", FreshId, s), MkLeaf("perm", FreshId, s)}
+   \cup (IF Len(s) = 1 THEN {MkLeaf("triu", FreshId, s)} ELSE {})
    \cup (IF SemCond(p) = None THEN {[k |-> "cadd", id |-> FreshId, shape |-> s, cs |-> <<2>>]}
          ELSE {[k |-> "cadd", id |-> FreshId, shape |-> s, cs |-> SemCond(p)]})
 
